@@ -29,6 +29,12 @@ def run(chk):
                               Feats={1}, Quals={90}, MaxDets=2, MaxIdle=8, simulate={"num": 15 if quick else 150, "depth": 6})
     for kind in ("visual", "batchvisual"):
         tc.replay_visual(chk, "gal-own-collect", r, c, kind, 2, "C13", "nt_C13g")
+    # an object whose apparent size crosses the minimal-area threshold (slot 5 = slot 1 seen smaller): the area gate
+    # concerns the box of the detection, whatever the smoothed box of the track is at that moment
+    r, c = tc.generate_visual(chk, "gal-resize", depth=5 if quick else 6, MinArea=3000, MaxObs=3, H=2, Slots={1, 5}, Confs={900}, Feats={1},
+                              Quals={90}, MaxDets=1, MaxIdle=8)
+    for kind in ("visual", "batchvisual"):
+        tc.replay_visual(chk, "gal-resize", r, c, kind, 2, "C13", "nt_C13g")
     if not quick:
         for m, h in ((8, 10), (5, 4)):
             name = f"gal-sim-m{m}-h{h}"
